@@ -66,6 +66,17 @@ CHECKS['C19'] = dict(
          'proved; covered by boundary inputs (multiples of 45 +-1..3 ulp, tiny values, far wrap points) and bit-exact '
          'model/implementation equality. Trusted: Lean kernel; propext, Classical.choice, Quot.sound; np.fmod = exact C fmod (tested).')
 
+CHECKS['C03'] = dict(
+    text='Translators on both sides regenerate Nat-coded finite tables on every run (C++ values printed by a compiler-built probe '
+         'against the real headers; Python values from the imported working tree cross-checked with ast.parse); 40 kernel-decided '
+         'theorems over them: one per enum pair, pairing completeness on both sides, sentinel justification, command/response '
+         'classification for every MessageType value, registry bijection with equal versions. A table diff yields the concrete '
+         'witness when a theorem stops checking.',
+    ref='4 C03', technique='translators + Lean 4 `decide +kernel` over regenerated finite tables',
+    note='Full over the regenerated tables. Trusted: translators as readers of names (completeness checked by compiler '
+         'switch-exhaustiveness and grep counts), the hand-written pairing/sentinel/exemption tables in Spec/C03.lean; Python '
+         'protocol enum = class X(IntEnum) in messages/*.py minus UpdateAction, SignalType; bitmask-derived classes not compared.')
+
 NOT_APPLICABLE = []
 
 
